@@ -19,7 +19,8 @@ def epsilon_softmax_sample(action_values, rand_choose, softmax_temp, rng):
         a = rng.choice(aa)
     else:
         if softmax_temp != 0.0:
-            weights = [math.exp(qi/softmax_temp) for qi in qs]
+            maxq = max(qs)
+            weights = [math.exp((qi - maxq)/softmax_temp) for qi in qs]
             tot = sum(weights)
             weights = [w/tot for w in weights]
             a = rng.choices(aa, weights=weights, k=1)[0]
